@@ -12,7 +12,8 @@ META = dict(
                 'whose target is not in the path plus the scenario handler, and the real dispatch on a target appends its name iff '
                 'absent, preserving the prefix and the object. Scenarios: all 512 directed graphs over 3 buses including self-loops '
                 '(adjacency bits as z3 booleans) x entry bus, and timed chains/diamonds/cycles/fan-ins with symbolic handler '
-                'durations and a second event in flight: per-bus probe counts, event_path = arrival order, same object, results '
+                'durations and a second event in flight, and two forwards to one target that is saturated to within a solver-chosen distance '
+                'of its admission limit (second delivery refused next to an accepted one): per-bus probe counts, event_path = arrival order, same object, results '
                 'accumulate, termination before the horizon.',
     assumptions=['the induction from the step kernel to all hop counts is argued in DESIGN.md, not machine-checked',
                  'graph3 scenarios use concrete (zero) handler durations; the timed scenarios cover durations'],
